@@ -83,7 +83,11 @@ func (w *world) apply(op WOp) {
 		if len(op.V) == 0 {
 			return
 		}
-		w.update(op.I, op.V, "update")
+		if op.N%4 == 3 {
+			w.update(op.I, op.V, "put") // the other public way of writing a key
+		} else {
+			w.update(op.I, op.V, "update")
+		}
 	case "readd":
 		k := string(w.key(op.I))
 		if e, ok := w.model[k]; ok {
@@ -173,7 +177,13 @@ func (w *world) update(i int, v []byte, how string) {
 		ctx += ":after-commit"
 	}
 	var err error
-	if w.guard("Update", func() { err = w.t.Update(key, v, wt) }) {
+	if w.guard("Update", func() {
+		if how == "put" {
+			err = w.t.Put(key, v, wt)
+		} else {
+			err = w.t.Update(key, v, wt)
+		}
+	}) {
 		return
 	}
 	if err != nil {
